@@ -171,6 +171,19 @@ Section Close.
       + rewrite El. discriminate.
   Qed.
 
+  (* market bids that do not close and the two funding messages move coins only: every record of the books stays *)
+  Definition coins_only (o : op) : bool :=
+    match o with OAucBid _ _ | OFundMod _ _ _ _ _ | OFundReserve _ _ _ _ => true | _ => false end.
+  Lemma coins_only_books st o st' : coins_only o = true -> step cfg st o = Ok st' ->
+    lends st' = lends st /\ borrows st' = borrows st /\ sstats st' = sstats st /\ lctr st' = lctr st /\ bctr st' = bctr st /\
+    prices st' = prices st.
+  Proof.
+    intros Ho H. destruct o; try discriminate Ho; cbn [step] in H.
+    - unfold auc_bid in H. destr_all H. injection H as <-. repeat split.
+    - destruct (_ || _); [discriminate|]. unfold fund_mod in H. destr_all H. injection H as <-. repeat split.
+    - destruct (_ || _); [discriminate|]. unfold fund_reserve in H. destr_all H. injection H as <-. repeat split.
+  Qed.
+
   (* finding C10-F7 seen from the lend books: a cross-pool position whose lend record the hand-over deleted can
      never be closed - every closing bid panics, whatever the auction supplies *)
   Lemma auc_close_stuck st bid b target owner back :
